@@ -21,4 +21,6 @@ mkdir -p .cache
 ( cd harness/fill_probe && cargo build --offline --release --target-dir ../../.cache/target-fill ) || echo "setup: fill_probe build failed"
 [ -f harness/side_probe/Cargo.lock ] || cp /repo/Cargo.lock harness/side_probe/Cargo.lock
 ( cd harness/side_probe && cargo build --offline --target-dir ../../.cache/target-side && cargo build --offline --release --target-dir ../../.cache/target-side ) || echo "setup: side_probe build failed"
+[ -f harness/big_probe/Cargo.lock ] || cp /repo/Cargo.lock harness/big_probe/Cargo.lock
+( cd harness/big_probe && cargo build --offline --target-dir ../../.cache/target-big && cargo build --offline --release --target-dir ../../.cache/target-big ) || echo "setup: big_probe build failed"
 echo "setup done"
